@@ -142,8 +142,25 @@ def run_tlc(ctx, module, cfg, *, workers=8, simulate=None, depth=None, env=None,
         else:
             stride = max(1, -(-r.replay_total // max_replay))
     import hashlib
+    def joined_lines(fh):
+        """TLC pretty-prints a long value over several lines: glue them back into one"""
+        buf = None
+        for raw in fh:
+            if buf is not None:
+                buf += " " + raw.strip()
+                if raw.rstrip().endswith(">>"):
+                    yield re.sub(r"^<<\s+", "<<", buf) + "\n"
+                    buf = None
+                continue
+            if raw.startswith("<<") and not raw.rstrip().endswith(">>"):
+                buf = raw.rstrip()
+                continue
+            yield raw
+        if buf is not None:
+            yield buf + "\n"
+
     with open(out_path, errors="replace") as f:
-        for line in f:
+        for line in joined_lines(f):
             if line.startswith('<<"REPLAY", '):
                 if not (max_replay or strata):
                     r.replay_total += 1
@@ -211,16 +228,16 @@ def run_judge(ctx, module, trace_path, *, cfg=None, timeout=1800, heap="12g"):
     bad = []
     notes = []
     for line in r.printed:
-        m = re.match(r'<<"CONSUMED", (\d+)>>', line)
+        m = re.match(r'<<"CONSUMED",\s*(\d+)\s*>>', line)
         if m:
             consumed = int(m.group(1))
             continue
-        m = re.match(r'<<"BAD", (\d+), \{(.*)\}>>', line)
+        m = re.match(r'<<"BAD",\s*(\d+),\s*\{(.*)\}\s*>>', line)
         if m:
             names = [x.strip().strip('"') for x in m.group(2).split(",") if x.strip()]
             bad.append((int(m.group(1)), names))
             continue
-        m = re.match(r'<<"NOTE", (\d+), \{(.*)\}>>', line)
+        m = re.match(r'<<"NOTE",\s*(\d+),\s*\{(.*)\}\s*>>', line)
         if m:
             names = [x.strip().strip('"') for x in m.group(2).split(",") if x.strip()]
             notes.append((int(m.group(1)), names))
